@@ -1077,4 +1077,38 @@ theorem read_lines_step_safe (now : Int) (te : TEnv) (line : List Char) (a : T.A
       · exact hC.2
     · trivial
 
+
+
+/-! ### propositions that are `True` (functions without a trapping operation), and two small compositions -/
+
+theorem temp_4_5_safe' (sign : Nat) (value : Nat) : T.temp_4_5.safe sign value := trivial
+theorem Capability_new_safe'  : T.Capability.new.safe  := trivial
+theorem Capability_from_data_safe' (flags : Nat) (bds20 : Bool) (bds40 : Bool) (bds44 : Bool) (bds50 : Bool) (bds60 : Bool) : T.Capability.from_data.safe flags bds20 bds40 bds44 bds50 bds60 := trivial
+theorem SelectedVerticalIntention_new_safe'  : T.SelectedVerticalIntention.new.safe  := trivial
+theorem SelectedVerticalIntention_from_data_safe' (mcp_selected_altitude : Option Nat) (fms_selected_altitude : Option Nat) (barometric_pressure_setting : Option Nat) (target_altitude_source : Option Nat) : T.SelectedVerticalIntention.from_data.safe mcp_selected_altitude fms_selected_altitude barometric_pressure_setting target_altitude_source := trivial
+theorem TrackAndTurn_new_safe'  : T.TrackAndTurn.new.safe  := trivial
+theorem TrackAndTurn_from_data_safe' (roll_angle : Option Int) (track_angle : Option Nat) (track_angle_rate : Option Int) (ground_speed : Option Nat) (true_airspeed : Option Nat) : T.TrackAndTurn.from_data.safe roll_angle track_angle track_angle_rate ground_speed true_airspeed := trivial
+theorem HeadingAndSpeed_new_safe'  : T.HeadingAndSpeed.new.safe  := trivial
+theorem HeadingAndSpeed_from_data_safe' (magnetic_heading : Option Nat) (indicated_airspeed : Option Nat) (mach_number : Option Rat) (barometric_altitude_rate : Option Int) (internal_vertical_velocity : Option Int) : T.HeadingAndSpeed.from_data.safe magnetic_heading indicated_airspeed mach_number barometric_altitude_rate internal_vertical_velocity := trivial
+theorem Meteo_new_safe'  : T.Meteo.new.safe  := trivial
+theorem Meteo_from_data_safe' (temp : Option Rat) (wind : Option (Nat × Nat)) (humidity : Option Nat) (turbulence : Option Nat) (pressure : Option Nat) : T.Meteo.from_data.safe temp wind humidity turbulence pressure := trivial
+theorem Srt_new_safe'  : T.Srt.new.safe  := trivial
+theorem Ext_new_safe'  : T.Ext.new.safe  := trivial
+theorem Ext_update_mt_1_4_safe' (self : T.Ext) (message : Msg) : T.Ext.update_mt_1_4.safe self message := trivial
+theorem Mds_new_safe'  : T.Mds.new.safe  := trivial
+theorem Plane_amend_from_ext_1_4_safe' (self : T.Plane) (dl : T.Ext) : T.Plane.amend_from_ext_1_4.safe self dl := trivial
+theorem Plane_amend_from_ext_20_22_safe' (self : T.Plane) (dl : T.Ext) : T.Plane.amend_from_ext_20_22.safe self dl := trivial
+theorem Plane_amend_from_ext_31_safe' (self : T.Plane) (dl : T.Ext) : T.Plane.amend_from_ext_31.safe self dl := trivial
+theorem Plane_update_position_safe' (tenv : TEnv) (self : T.Plane) (message_type : Nat) (cpr_form : Nat) : T.Plane.update_position.safe tenv self message_type cpr_form := trivial
+theorem Plane_update_from_downlink_Mds_safe' (self : T.Plane) (dl : T.Mds) : T.Plane.update_from_downlink_Mds.safe self dl := trivial
+theorem Plane_update_from_downlink_Srt_safe' (self : T.Plane) (dl : T.Srt) : T.Plane.update_from_downlink_Srt.safe self dl := trivial
+theorem Plane_update_from_ext_1_4_safe' (self : T.Plane) (message : Msg) (message_type : Nat) (message_subtype : Nat) : T.Plane.update_from_ext_1_4.safe self message message_type message_subtype := trivial
+theorem AppCounters_reset_cleanup_count_safe' (self : T.AppCounters) : T.AppCounters.reset_cleanup_count.safe self := trivial
+theorem AppCounters_reset_timestamp_safe' (self : T.AppCounters) (now : Int) : T.AppCounters.reset_timestamp.safe self now := trivial
+theorem AppCounters_is_time_to_refresh_safe' (self : T.AppCounters) (now : Int) (update : Int) : T.AppCounters.is_time_to_refresh.safe self now update := trivial
+theorem update_from_ext_20_22_safe (self : T.Plane) (m : Msg) (L : Long m) : T.Plane.update_from_ext_20_22.safe self m :=
+  ⟨altitude_gnss_safe m L, surveillance_status_safe m L⟩
+theorem update_from_ext_31_safe (self : T.Plane) (m : Msg) (L : Long m) : T.Plane.update_from_ext_31.safe self m := version_safe m L
+theorem plane_new_safe (now : Int) : T.Plane.new.safe now := trivial
+
 end Sq.Safe
